@@ -187,3 +187,26 @@ Theorem C04_rule_precedence :
                end) /\ v_action v = last_action (r_rhs r) [] /\ v_lhs v = r_lhs r /\ v_rhs v = rsyms (r_rhs r).
 Proof. exact FrontPrec.visit_rule_prec. Qed.
 Print Assumptions C04_rule_precedence.
+
+From YG Require Import LRBase CompleteDriver LR0Build Resolve PackCore Pipeline PipelineRun Front WfGrammar YParser EndToEnd EndToEndWf.
+Close Scope Z_scope.
+Open Scope nat_scope.
+
+(* from the bytes of the grammar file, with no side condition: every cell of the matrix the generator emits for a text is the resolution - by the precedences and associativities read from that text, else by the yacc defaults - of the candidates of that cell (C04_pipeline_sr_prec, C04_pipeline_sr_default, C04_pipeline_rr_default say what the resolution is) *)
+Theorem C04_from_the_text :
+  forall (s : list Ascii.ascii) (b : built) (t : tables),
+         generate_text s = GOk b t ->
+         forall q a : nat,
+         q < length (t_aut t) ->
+         a < gi_nsyms (b_gi b) ->
+         dense_action (length (t_aut t)) (t_dense t) q a =
+         match
+           resolve
+             (TableCert.candidates (gi_rules (b_gi b)) (t_aut t) (la_lookup (t_la t)) 
+                (sprec_of (b_gi b)) (rprec_of (b_gi b)) q a)
+         with
+         | Some (w, _) => TableCert.decode (c_kind w)
+         | None => Error
+         end.
+Proof. exact EndToEndWf.text_cell. Qed.
+Print Assumptions C04_from_the_text.
